@@ -599,6 +599,7 @@ func (a *Analyzer) Feed(r *ev.Rec) {
 		if r.Kind == "shared" {
 			a.find("C15", "task-result-is-live-state", "", r.Q, "the configuration returned by WaitForStableConfig on %d/%d is the node's own: a change the caller made to it (without submitting anything) shows in the node's next status report", r.Cid, r.Nid)
 			a.find("C08", "task-result-is-live-state", "", r.Q, "the configuration returned by WaitForStableConfig on %d/%d is the node's own: the caller's edits change the configuration the leader operates under, without any request", r.Cid, r.Nid)
+			a.find("C06", "task-result-is-live-state", "", r.Q, "the configuration returned by WaitForStableConfig on %d/%d is the node's own: the set of voters the leader counts acknowledgements against is in the caller's hands (an edit of the result changes what a majority is)", r.Cid, r.Nid)
 		}
 	case "lifecycle":
 		a.stat("lifecycle:" + r.Op + ":" + r.Kind)
@@ -898,6 +899,11 @@ func (a *Analyzer) onOpen(n *nodeState, r *ev.Rec) {
 		}
 		if st.Prev > st.Snap || st.Snap > st.Last {
 			a.find("C10", "log-not-contiguous-with-snapshot", fmt.Sprintf("log-not-contiguous-with-snapshot:%s", n.crashPoint), r.Q, "%s after restart: first-1=%d snapshot=%d last=%d (crash point %q)", n.key, st.Prev, st.Snap, st.Last, n.crashPoint)
+			if strings.HasPrefix(n.crashPoint, "install.") || strings.HasPrefix(n.crashPoint, "log.reset") || n.crashPoint == "clearLog" {
+				// C09: an installation that was interrupted must leave a node that
+				// restarts into a usable state and can be brought up to date
+				a.find("C09", "interrupted-installation-leaves-unusable-node", "", r.Q, "%s restarts after a kill inside a snapshot installation (%s) with snapshot %d but a log (%d,%d] that does not reach it", n.key, n.crashPoint, st.Snap, st.Prev, st.Last)
+			}
 		}
 		if n.crashed {
 			a.stat("crash-restarts")
